@@ -196,7 +196,7 @@ func c13Simple(r *run.Run) {
 			kind := nameKinds[c.Choose(len(nameKinds), "names")]
 			names := nameSets[kind](n)
 			n = len(names)
-			encKind := c.Choose(5, "encoding")
+			encKind := c.Choose(6, "encoding")
 			payload := explore.Pick(c, "payload per glyph (segments)", 1, 20, 300)
 			f := &cff.Font{FontInfo: c13Info(), Outlines: &cff.Outlines{Private: []*type1.PrivateDict{c13Priv(0)}, FDSelect: func(glyph.ID) int { return 0 }}}
 			for i, nm := range names {
@@ -229,6 +229,31 @@ func c13Simple(r *run.Run) {
 				}
 				if n > 1 {
 					e[0xF0], e[0xF1] = 1, 1 // multiply encoded
+				}
+				f.Encoding = e
+			case 5:
+				// a strict subset of the standard encoding: the glyph with the largest id that has a standard code
+				// is left unencoded (the others keep the contiguity rule); not the same as the standard encoding
+				e := append([]glyph.ID{}, cff.StandardEncoding(f.Glyphs)...)
+				top := glyph.ID(0)
+				for _, g := range e {
+					top = max(top, g)
+				}
+				if top == 0 {
+					c.Skip("no glyph with a standard code")
+				}
+				seen := map[glyph.ID]bool{}
+				for code, g := range e {
+					if g == top {
+						e[code] = 0
+					} else if g != 0 {
+						seen[g] = true
+					}
+				}
+				for g := glyph.ID(1); int(g) <= len(seen); g++ {
+					if !seen[g] {
+						c.Skip("outside the documented contiguity rule: the encoded glyphs are not 1..k")
+					}
 				}
 				f.Encoding = e
 			case 4:
